@@ -1,7 +1,7 @@
 (** Dispatch table of the correspondence checks: property number, then the
     lab kind tag that leads every case input. *)
 From Coq Require Import List ZArith Bool.
-From TR Require Import Lib.Sx Run.C12 Run.Eng Run.Doc Run.Pol Run.Drv Run.Par Run.Iso.
+From TR Require Import Lib.Sx Run.C12 Run.Eng Run.Doc Run.Pol Run.Drv Run.Par Run.Iso Run.Life.
 Import ListNotations.
 Open Scope Z_scope.
 
@@ -16,5 +16,6 @@ Definition check (prop : Z) (inp impl : sx) : sx :=
        | 7 => check_drv prop inp impl
        | 8 | 9 | 10 | 11 | 12 => check_par prop inp impl
        | 13 | 14 => check_iso prop inp impl
+       | 15 => check_life prop inp impl
        | _ => badcase
        end.
